@@ -133,6 +133,22 @@ PROPS = {
         assumptions=["variables are put into the host storer before the runner is created (the start node's entry is the creation of the runner)"],
         subs=[rapid("snapshots", "TestC07Snapshots", 300, 3000)],
     ),
+    "C08": dict(
+        technique="metamorphic PBT: the same generated program rendered in the canonical and in a tape-driven random layout; reflect.DeepEqual of the parsed dialogues and equality of traces",
+        level_text="Every generated program is rendered twice - canonical layout and a layout drawn from: indentation unit 1-8 blanks, tabs, or a different width per block; "
+                   "if-bodies indented or flat; LF or CRLF; final newline or not; blank, whitespace-only and comment lines (column 0, block indentation, deeper, enclosing "
+                   "block's indentation) before, between and after the statements of every body and between options; trailing comments and blanks; every spelling of "
+                   "every operator and of the assignment; redundant parentheses; extra blanks inside commands and expressions. Both renderings must load, the parsed "
+                   "dialogues must be deep-equal (also when all nodes are put into one reader), and the traces, host-function and command logs for two choice "
+                   "sequences must be equal. Search, not proof.",
+        level_note="Blanks that separate literal line text (or a trailing inline expression) from a trailing comment are part of the line's text in the parsed dialogue - "
+                   "the repository's own tree snapshots pin this - so in that position the comment is attached without a blank. Extra blanks between 'jump' and its "
+                   "destination are a known finding and are excluded by construction (replay/C08/jump-double-blank.json).",
+        rule="program x layout (about 450 layout decisions on a tape biased to the canonical choice) x 2 choice lists; non-trivial = layout differs from canonical in at "
+             "least two dimensions, one of them a blank/whitespace-only/comment line, and the traces hold at least 3 elements; distinct = distinct serialised cases.",
+        assumptions=["indentation mixing tabs and blanks inside one line is a syntax error (C05), not layout"],
+        subs=[rapid("layouts", "TestC08Layouts", 500, 5000)],
+    ),
     "C11": dict(
         technique="model-based PBT over jump histories: reference visit counter vs rendered visited()/visited_count() and Snapshot().VisitedNodes at every step; bounded all-paths enumeration",
         level_text="Jump-heavy generated scripts (2-5 nodes, self-loops and cycles, jumps by name and by expression out of nested option/if bodies, failing jumps "
